@@ -1608,7 +1608,7 @@ pub fn property() -> Property {
     Property {
         id: "C16",
         level: "exploration",
-        rule: "generated: histories of 1..10 operations over one value pool (integers, floats incl. 0.0/-0.0/NaN/±inf, numeric-looking strings, booleans, null, arrays of these; probes are drawn from the stored values, their other-typed twins, or fresh). alpha: insert/create_index/drop_index/filter(+filter_tracked) on 3 fields — oracle: every filter returns exactly the fact indices of the linear scan with == (multiset); alpha-exh4/5 (thorough also 6): ALL histories of that length over 14 letters (insert of 5, \"5\", 5.0, 0.0, -0.0, NaN; create; drop; filter for the same 6 values; one field). beta: add/remove/lookup through 4 index slots — oracle: lookup(Debug rendering of v) contains every live fact whose join value == v and renders like v, nothing but live facts whose value == v or renders like v, no duplicates; beta-exh5 (thorough also 6): ALL histories of that length over 12 letters (toggle 2 idx x 4 facts keyed 5, \"5\", 5.0, none; 4 lookups). memo: 1..3 nodes (alpha, and/or/not/exists/forall, multifield) x 1..4 fact sets (fresh, type-twins or copies of earlier sets) on one MemoizedEvaluator — oracle: every evaluate equals evaluate_typed. conclusion: add_rule/remove_rule/find_candidates over 4 rule names, 1..3 actions (Set/Log/MethodCall/Retract), enabled or not, 11 goal spellings — oracle: candidates contain every rule whose latest added version is enabled, not removed, and has a Set on the goal's field. engine: the same demand on the candidate list visible in the proof trace of BackwardEngine::query after with_config / knowledge-base edits / rebuild_index, relative to the rule set the index was last built from. Non-trivial: alpha — a judged filter on an indexed field whose index was created after >=1 insert and followed by >=1 insert; beta — a judged lookup after a removal whose key was removed or is still live; memo — some (node, facts) pair evaluated twice and the same node evaluated on two different fact sets; conclusion — a find with a non-empty demanded set after removal of an indexed rule; engine — a query with a non-empty demanded set after a rebuild_index that followed a knowledge-base edit. Distinct: structural hash of the whole generated case (floats by bit pattern). Parts `precision` / `lookalike` (exhaustive): two facts that differ only in a pair of unequal values that a key rendering could write alike (integers equal as f64; a string element containing an element separator, nesting a flattening loses, elements running together, case / blank / Unicode-composition / escape variants) x 5 index schedules x both orders: filter and filter_tracked against the == scan, memoised against direct evaluation. In part lookalike both facts also carry b = x and the memoised nodes include a == b and a != b (the evaluator resolves a value that names a field), so the two facts always differ in verdict.",
+        rule: "generated: histories of 1..10 operations over one value pool (integers, floats incl. 0.0/-0.0/NaN/±inf, numeric-looking strings, booleans, null, arrays of these; probes are drawn from the stored values, their other-typed twins, or fresh). alpha: insert/create_index/drop_index/filter(+filter_tracked) on 3 fields — oracle: every filter returns exactly the fact indices of the linear scan with == (multiset); alpha-exh4/5 (thorough also 6): ALL histories of that length over 14 letters (insert of 5, \"5\", 5.0, 0.0, -0.0, NaN; create; drop; filter for the same 6 values; one field). beta: add/remove/lookup through 4 index slots — oracle: lookup(Debug rendering of v) contains every live fact whose join value == v and renders like v, nothing but live facts whose value == v or renders like v, no duplicates; beta-exh5 (thorough also 6): ALL histories of that length over 12 letters (toggle 2 idx x 4 facts keyed 5, \"5\", 5.0, none; 4 lookups). memo: 1..3 nodes (alpha, and/or/not/exists/forall, multifield) x 1..4 fact sets (fresh, type-twins or copies of earlier sets) on one MemoizedEvaluator — oracle: every evaluate equals evaluate_typed. conclusion: add_rule/remove_rule/find_candidates over 4 rule names, 1..3 actions (Set/Log/MethodCall/Retract), enabled or not, 11 goal spellings — oracle: candidates contain every rule whose latest added version is enabled, not removed, and has a Set on the goal's field. engine: the same demand on the candidate list visible in the proof trace of BackwardEngine::query after with_config / knowledge-base edits / rebuild_index, relative to the rule set the index was last built from. Non-trivial: alpha — a judged filter on an indexed field whose index was created after >=1 insert and followed by >=1 insert; beta — a judged lookup after a removal whose key was removed or is still live; memo — some (node, facts) pair evaluated twice and the same node evaluated on two different fact sets; conclusion — a find with a non-empty demanded set after removal of an indexed rule; engine — a query with a non-empty demanded set after a rebuild_index that followed a knowledge-base edit. Distinct: structural hash of the whole generated case (floats by bit pattern). Parts `precision` / `lookalike` (exhaustive): two facts that differ only in a pair of unequal values that a key rendering could write alike (integers equal as f64; a string element containing an element separator, nesting a flattening loses, elements running together, case / blank / Unicode-composition / escape variants) x 5 index schedules x both orders: filter and filter_tracked against the == scan, memoised against direct evaluation. In part lookalike both facts also carry b = x and the memoised nodes include a == b and a != b (the evaluator resolves a value that names a field), so the two facts always differ in verdict. The object under test is built with new() or with default() in turn (by a hash of the case's data, no draw).",
         assumptions: vec![
             "BetaMemoryIndex::lookup takes a caller-rendered key string: a result is accepted when it lies between the == reading and the same-rendering reading of 'carrying that key' (they differ only for ±0.0 and NaN); const BETA_STRICT_EQ switches to == alone".into(),
             "Conclusion index: only completeness (superset) is demanded, as the statement reads; proposing disabled, removed or unrelated rules is not judged".into(),
